@@ -20,14 +20,23 @@ Set Warnings "-notation-overridden,-parsing".
 From Coq Require Import List ZArith NArith Arith Bool Lia.
 From GL Require Import spec.KV model.InmemKV proofs.C03_KV proofs.C03_Inmem proofs.C06_Expiry proofs.C06_Lazy.
 From GL Require Import lib.GoLite lib.GoLitePtr.
-From GLGEN Require Import KV_GenVocab Gen_inmem C03_GenFn_get C03_GenFn_ops.
+From GLGEN Require Import KV_GenVocab Gen_inmem C03_GenFn_get C03_GenFn_ops C03_GenFn_batch.
 Import ListNotations.
 Open Scope Z_scope.
 
 Definition gout : Type := (Z * Z * list Z)%type.
 
+(* the operations driven by the glue: all but ListKeys (WaitForVersionChange is no [op]) *)
+Definition tied_op (o : op) : Prop :=
+  match o with
+  | ListKeys _ => False
+  | GetMany ks => zlen ks < 9223372036854775808      (* make([]*Record, len(keys)) *)
+  | _ => True
+  end.
 Definition scalar_op (o : op) : Prop :=
   match o with GetMany _ | PutMany _ | ListKeys _ => False | _ => True end.
+Lemma scalar_tied o : scalar_op o -> tied_op o.
+Proof. destruct o; cbn; tauto. Qed.
 
 Section Run.
 
@@ -51,13 +60,18 @@ Hypothesis Hctx : ctx_spec ctx_Err.
 Notation enc_out := (C03_GenFn_get.enc_out kid vid Record_mk).
 Notation arg_rec := (arg_rec kid vid Record_mk).
 Notation rel := (rel kid vid Record_mk).
+Notation enc_recs := (C03_GenFn_batch.enc_recs kid vid Record_mk).
 
-(* the result of a call as the generated code returns it *)
+(* the result of a call as the generated code returns it (for GetMany: as read through
+   the returned pointers) *)
 Definition enc_res (o : op) (x : out) : gout :=
   match o with
   | Delete _ => (0, snd (enc_out x), [])
+  | GetMany _ => match x with ORecs rs => (0, 0, enc_recs rs) | _ => (0, -1, []) end
   | _ => (fst (enc_out x), snd (enc_out x), [])
   end.
+
+Definition put_arg (r : key * value * option Z) : Z := let '(k, v, e) := r in arg_rec k v 0 e.
 
 Definition gen_step (s : Gen.service) (now : Z) (o : op) : M (Gen.service * gout) :=
   match o with
@@ -79,7 +93,16 @@ Definition gen_step (s : Gen.service) (now : Z) (o : op) : M (Gen.service * gout
   | Delete k =>
       r <- Gen.service_Delete Record_mk Record_ExpiresAt ptime_val (time_Now now) chan_close s 0 (kid k) ;;
       ret (fst r, (0, snd r, []))
-  | _ => gopanic      (* GetMany / PutMany / ListKeys: not driven by this glue *)
+  | PutMany rs =>
+      sl <- alloc_arr (map put_arg rs) ;;        (* the slice of the records: a new array *)
+      r <- Gen.service_PutMany Record_mk Record_Key Record_Value Record_Version Record_ExpiresAt new_id chan_close s 0 sl ;;
+      ret (fst r, (0, snd r, []))
+  | GetMany ks =>
+      sl <- alloc_arr (map kid ks) ;;            (* the variadic keys: a new array *)
+      r <- Gen.service_GetMany Record_mk Record_ExpiresAt ptime_val (time_Now now) chan_close s 0 sl ;;
+      l <- read_recs (snd (fst r)) ;;            (* the caller dereferences the result *)
+      ret (fst (fst r), (0, snd r, l))
+  | ListKeys _ => gopanic      (* not driven by this glue *)
   end.
 
 Fixpoint gen_run (s : Gen.service) (ops : list (Z * op)) (h : heap) : option (list gout * Gen.service * heap) :=
@@ -102,77 +125,118 @@ Fixpoint enc_outs (ops : list (Z * op)) (xs : list out) : list gout :=
   | _, _ => []
   end.
 
-Theorem gen_step_refines im gm wt now o lg ws : rel gm (m im) -> wt_ok wt -> scalar_op o ->
-  exists gm' wt' lg',
-    gen_step (Gen.mk_service gm wt) now o (kheap lg (nxt im) ws) =
-      Ok ((Gen.mk_service gm' wt', enc_res o (snd (im_step im now o))), kheap lg' (nxt (fst (im_step im now o))) ws) /\
-    rel gm' (m (fst (im_step im now o))) /\ wt_ok wt'.
+Lemma wt_in_notify_all ws ks : forall wt lg ws', wt_in ws wt -> wt_in ws (fst (notify_all ks wt lg ws')).
 Proof.
-  intros HR Hw Hs. destruct o as [k v e|k|ks|k v e|rs|k v e n|k|pat]; try destruct Hs; cbn [gen_step im_step enc_res].
+  induction ks as [|k t IH]; intros wt lg ws' H; [exact H|]. cbn [notify_all]. apply IH. apply wt_in_notify. exact H.
+Qed.
+
+(* the arrays [ws] only grow (argument slices, result arrays, cells): [ws'] extends [ws] *)
+Theorem gen_step_refines im gm wt now o lg ws : rel gm (m im) -> wt_in ws wt -> tied_op o ->
+  exists gm' wt' lg' ws',
+    gen_step (Gen.mk_service gm wt) now o (kheap lg (nxt im) ws) =
+      Ok ((Gen.mk_service gm' wt', enc_res o (snd (im_step im now o))), kheap lg' (nxt (fst (im_step im now o))) ws') /\
+    rel gm' (m (fst (im_step im now o))) /\ wt_in ws' wt'.
+Proof.
+  intros HR Hi Hs. pose proof (wt_in_ok _ _ Hi) as Hw.
+  destruct o as [k v e|k|ks|k v e|rs|k v e n|k|pat]; try contradiction; cbn [gen_step im_step enc_res].
   - destruct (gen_Create_refines kid vid kid_inj Record_mk Record_Key Record_Value Record_Version Record_ExpiresAt Hrec
                 ptime_val Hpt now (time_Now now) (Hnow now) new_id Hnew chan_close Hclose ctx_Err Hctx
                 im gm wt k v 0 e lg ws HR Hw) as (gm' & E & HR' & Hw').
-    rewrite (bind_ok _ _ _ _ _ E). unfold ret. cbn [fst snd]. eauto 8.
+    rewrite (bind_ok _ _ _ _ _ E). unfold ret. cbn [fst snd].
+    do 4 eexists. split; [reflexivity|]. split; [exact HR'|]. apply wt_in_get_wl. exact Hi.
   - destruct (gen_Get_refines kid vid kid_inj Record_mk Record_Key Record_Value Record_Version Record_ExpiresAt Hrec
                 ptime_val Hpt now (time_Now now) (Hnow now) chan_close Hclose
                 im gm wt k 0 lg ws HR Hw) as (gm' & E & HR' & Hw').
-    rewrite (bind_ok _ _ _ _ _ E). unfold ret. cbn [fst snd]. eauto 8.
+    rewrite (bind_ok _ _ _ _ _ E). unfold ret. cbn [fst snd].
+    do 4 eexists. split; [reflexivity|]. split; [exact HR'|]. apply wt_in_get_wl. exact Hi.
+  - (* GetMany *)
+    rewrite (bind_ok _ _ _ _ _ (alloc_arr_kheap _ _ _ _)).
+    destruct (gen_GetMany_refines kid vid kid_inj Record_mk Record_Key Record_Value Record_Version Record_ExpiresAt Hrec
+                ptime_val Hpt now (time_Now now) (Hnow now) chan_close Hclose
+                im gm wt ks 0 _ lg (ws ++ [map kid ks]) HR (wt_in_app _ _ _ Hi)
+                (sl_is_alloc ws (map kid ks)) Hs) as (gm' & E & HR' & Hi' & Hn').
+    cbv zeta in E. rewrite (bind_ok _ _ _ _ _ E). cbn [fst snd].
+    destruct (im_getmany now ks im) as [im' outs] eqn:Eg. cbn [fst snd] in *.
+    assert (Hl : zlen ks = zlen outs).
+    { unfold zlen. f_equal. pose proof (length_getmany now ks im) as L. rewrite Eg in L. cbn [snd] in L. lia. }
+    rewrite Hl. rewrite (bind_ok _ _ _ _ _ (read_GetMany kid vid Record_mk _ _ _ outs)). unfold ret.
+    do 4 eexists. split; [reflexivity|]. split; [exact HR'|]. apply wt_in_app. exact Hi'.
   - destruct (gen_Put_refines kid vid kid_inj Record_mk Record_Key Record_Value Record_Version Record_ExpiresAt Hrec
                 new_id Hnew chan_close Hclose
                 im gm wt k v 0 e 0 lg ws HR Hw) as (gm' & E & HR' & Hw').
-    rewrite (bind_ok _ _ _ _ _ E). unfold ret. cbn [fst snd]. eauto 8.
+    rewrite (bind_ok _ _ _ _ _ E). unfold ret. cbn [fst snd].
+    do 4 eexists. split; [reflexivity|]. split; [exact HR'|]. apply wt_in_notify. exact Hi.
+  - (* PutMany *)
+    rewrite (bind_ok _ _ _ _ _ (alloc_arr_kheap _ _ _ _)).
+    set (crs := map (fun r : key * value * option Z => (r, 0)) rs).
+    assert (Ea : map put_arg rs = map (b_arg kid vid Record_mk) crs).
+    { unfold crs. rewrite map_map. apply map_ext. intros [[k v] e]. reflexivity. }
+    assert (Es : map b_strip crs = rs).
+    { unfold crs. rewrite map_map. cbn [b_strip fst]. apply map_id. }
+    destruct (gen_PutMany_refines kid vid kid_inj Record_mk Record_Key Record_Value Record_Version Record_ExpiresAt Hrec
+                new_id Hnew chan_close Hclose
+                im gm wt crs 0 _ lg (ws ++ [map put_arg rs]) HR Hw
+                ltac:(rewrite <- Ea; exact (sl_is_alloc ws (map put_arg rs)))) as (gm' & E & HR' & Hw').
+    cbv zeta in E. rewrite Es in E, HR'. rewrite (bind_ok _ _ _ _ _ E). unfold ret. cbn [fst snd].
+    do 4 eexists. split; [reflexivity|]. split; [exact HR'|]. apply wt_in_notify_all. apply wt_in_app. exact Hi.
   - pose proof (gen_Cas_refines kid vid kid_inj Record_mk Record_Key Record_Value Record_Version Record_ExpiresAt Hrec
                 ptime_val Hpt now (time_Now now) (Hnow now) new_id Hnew chan_close Hclose
                 im gm wt k v e n 0 lg ws HR Hw) as G. cbv zeta in G. destruct G as (gm' & E & HR' & Hw').
-    rewrite (bind_ok _ _ _ _ _ E). unfold ret. cbn [fst snd]. eauto 8.
+    rewrite (bind_ok _ _ _ _ _ E). unfold ret. cbn [fst snd].
+    do 4 eexists. split; [reflexivity|]. split; [exact HR'|].
+    destruct (snd (im_cas now k v e n im)); try (apply wt_in_get_wl; exact Hi).
+    apply wt_in_notify. apply wt_in_get_wl. exact Hi.
   - pose proof (gen_Delete_refines kid vid kid_inj Record_mk Record_Key Record_Value Record_Version Record_ExpiresAt Hrec
                 ptime_val Hpt now (time_Now now) (Hnow now) chan_close Hclose
                 im gm wt k 0 lg ws HR Hw) as G. cbv zeta in G. destruct G as (gm' & E & HR' & Hw').
-    rewrite (bind_ok _ _ _ _ _ E). unfold ret. cbn [fst snd]. eauto 8.
+    rewrite (bind_ok _ _ _ _ _ E). unfold ret. cbn [fst snd].
+    do 4 eexists. split; [reflexivity|]. split; [exact HR'|].
+    destruct (snd (im_delete now k im)); try (apply wt_in_get_wl; exact Hi).
+    apply wt_in_notify. apply wt_in_get_wl. exact Hi.
 Qed.
 
-Theorem gen_run_refines : forall ops im gm wt lg ws, rel gm (m im) -> wt_ok wt ->
-  Forall (fun no => scalar_op (snd no)) ops ->
-  exists gmf wtf lgf,
+Theorem gen_run_refines : forall ops im gm wt lg ws, rel gm (m im) -> wt_in ws wt ->
+  Forall (fun no => tied_op (snd no)) ops ->
+  exists gmf wtf lgf wsf,
     gen_run (Gen.mk_service gm wt) ops (kheap lg (nxt im) ws) =
-      Some (enc_outs ops (fst (im_run im ops)), Gen.mk_service gmf wtf, kheap lgf (nxt (snd (im_run im ops))) ws) /\
-    rel gmf (m (snd (im_run im ops))) /\ wt_ok wtf.
+      Some (enc_outs ops (fst (im_run im ops)), Gen.mk_service gmf wtf, kheap lgf (nxt (snd (im_run im ops))) wsf) /\
+    rel gmf (m (snd (im_run im ops))) /\ wt_in wsf wtf.
 Proof.
   induction ops as [|[now o] t IH]; intros im gm wt lg ws HR Hw Hs.
   - cbn [gen_run im_run enc_outs fst snd]. eauto 8.
   - inversion Hs as [|? ? Ho Ht]; subst. cbn [snd] in Ho. cbn [gen_run im_run].
-    destruct (gen_step_refines im gm wt now o lg ws HR Hw Ho) as (gm' & wt' & lg' & E & HR' & Hw'). rewrite E.
+    destruct (gen_step_refines im gm wt now o lg ws HR Hw Ho) as (gm' & wt' & lg' & ws' & E & HR' & Hw'). rewrite E.
     destruct (im_step im now o) as [im' x]. cbn [fst snd] in *.
-    destruct (IH im' gm' wt' lg' ws HR' Hw' Ht) as (gmf & wtf & lgf & E' & HRf & Hwf). rewrite E'.
-    destruct (im_run im' t) as [xs imf]. cbn [fst snd enc_outs] in *. eauto 8.
+    destruct (IH im' gm' wt' lg' ws' HR' Hw' Ht) as (gmf & wtf & lgf & wsf & E' & HRf & Hwf). rewrite E'.
+    destruct (im_run im' t) as [xs imf]. cbn [fst snd enc_outs] in *. eauto 10.
 Qed.
 
-(* the program: s := New(); then the calls.  Heap: empty log, version counter 1, no waiter objects *)
+(* the program: s := New(); then the calls.  Heap: empty log, version counter 1, no arrays *)
 Definition gen_run_new (ops : list (Z * op)) : option (list gout * Gen.service * heap) :=
   match Gen.New (kheap [] 1 []) with
   | Ok (s, h) => gen_run s ops h
   | _ => None
   end.
 
-Theorem gen_inmem_refines_kv : forall ops t0, mono t0 ops -> Forall (fun no => scalar_op (snd no)) ops ->
+Theorem gen_inmem_refines_kv : forall ops t0, mono t0 ops -> Forall (fun no => tied_op (snd no)) ops ->
   option_map (fun r => fst (fst r)) (gen_run_new ops) = Some (enc_outs ops (fst (run init ops))).
 Proof.
   intros ops t0 Hm Hs. unfold gen_run_new. rewrite gen_New_refines.
-  destruct (gen_run_refines ops im_new [] [] [] [] (rel_nil kid vid Record_mk) wt_ok_nil Hs) as (gmf & wtf & lgf & E & _ & _).
+  destruct (gen_run_refines ops im_new [] [] [] [] (rel_nil kid vid Record_mk) (wt_in_nil []) Hs) as (gmf & wtf & lgf & wsf & E & _ & _).
   change (nxt im_new) with 1%nat in E. rewrite E. cbn [option_map fst].
   rewrite (inmem_refines_kv ops t0 Hm). reflexivity.
 Qed.
 
 (* C06: an expired record still in the map, or not: no later history tells *)
 Theorem gen_expired_eq_deleted : forall t im k ops gm gm2 wt wt2 lg lg2 ws ws2,
-  im_reachable t im -> im_exp_passed im t k -> mono t ops -> Forall (fun no => scalar_op (snd no)) ops ->
-  rel gm (m im) -> rel gm2 (m (im_del k im)) -> wt_ok wt -> wt_ok wt2 ->
+  im_reachable t im -> im_exp_passed im t k -> mono t ops -> Forall (fun no => tied_op (snd no)) ops ->
+  rel gm (m im) -> rel gm2 (m (im_del k im)) -> wt_in ws wt -> wt_in ws2 wt2 ->
   option_map (fun r => fst (fst r)) (gen_run (Gen.mk_service gm wt) ops (kheap lg (nxt im) ws)) =
   option_map (fun r => fst (fst r)) (gen_run (Gen.mk_service gm2 wt2) ops (kheap lg2 (nxt (im_del k im)) ws2)).
 Proof.
   intros t im k ops gm gm2 wt wt2 lg lg2 ws ws2 Hre Hex Hm Hs HR HR2 Hw Hw2.
-  destruct (gen_run_refines ops im gm wt lg ws HR Hw Hs) as (? & ? & ? & E & _ & _).
-  destruct (gen_run_refines ops (im_del k im) gm2 wt2 lg2 ws2 HR2 Hw2 Hs) as (? & ? & ? & E2 & _ & _).
+  destruct (gen_run_refines ops im gm wt lg ws HR Hw Hs) as (? & ? & ? & ? & E & _ & _).
+  destruct (gen_run_refines ops (im_del k im) gm2 wt2 lg2 ws2 HR2 Hw2 Hs) as (? & ? & ? & ? & E2 & _ & _).
   rewrite E, E2. cbn [option_map fst]. rewrite (im_expired_eq_deleted t im k ops Hre Hex Hm). reflexivity.
 Qed.
 
@@ -273,7 +337,7 @@ Definition lit_run (ops : list (Z * op)) :=
     lit_ptime_val lit_time_Now lit_new_id lit_chan_close lit_ctx_Err ops.
 Definition lit_enc_outs := enc_outs lit_id lit_id lit_Record_mk.
 
-Theorem gen_inmem_refines_kv_lit : forall ops t0, mono t0 ops -> Forall (fun no => scalar_op (snd no)) ops ->
+Theorem gen_inmem_refines_kv_lit : forall ops t0, mono t0 ops -> Forall (fun no => tied_op (snd no)) ops ->
   option_map (fun r => fst (fst r)) (lit_run ops) = Some (lit_enc_outs ops (fst (run init ops))).
 Proof.
   intros ops t0. unfold lit_run, lit_enc_outs.
@@ -282,22 +346,36 @@ Proof.
            lit_chan_close lit_close_spec lit_ctx_Err lit_ctx_spec ops t0).
 Qed.
 
-(* a run with lazy expiry: b expires at 100 and is dropped by whoever looks at it later *)
+(* a run with lazy expiry: b expires at 100 and is dropped by whoever looks at it later;
+   a batch with a repeated key (the last write wins, versions in order), GetMany with a
+   repeated, a missing and an expired key *)
 Definition ex_a : key := [97%N].
 Definition ex_b : key := [98%N].
+Definition ex_c : key := [99%N].
 Definition ex_ops : list (Z * op) :=
   [(1, Create ex_a [120%N] None); (2, Create ex_a [121%N] None); (3, Put ex_b [122%N] (Some 100)); (50, Get ex_b);
    (100, Get ex_b); (101, Get ex_b); (102, CasByVersion ex_a [123%N] None 7); (103, CasByVersion ex_a [123%N] None 1);
-   (104, Delete ex_b); (105, Delete ex_a); (106, Get ex_a); (107, Create ex_b [] (Some 5)); (108, Create ex_b [] None)].
+   (104, Delete ex_b); (105, Delete ex_a); (106, Get ex_a); (107, Create ex_b [] (Some 5)); (108, Create ex_b [] None);
+   (109, PutMany [(ex_a, [1%N], None); (ex_c, [2%N], Some 120); (ex_a, [3%N], None)]);
+   (110, GetMany [ex_a; ex_c; ex_a; [100%N]; ex_b]);
+   (121, GetMany [ex_c; ex_a; ex_c]); (122, GetMany [])].
 
 Example gen_ex_inmem :
   option_map (fun r => fst (fst r)) (lit_run ex_ops) = Some (lit_enc_outs ex_ops (fst (run init ex_ops))) /\
   fst (run init ex_ops) =
     [OVer 1; OExist 1; ORec (ex_b, [122%N], 2%nat, Some 100); ORec (ex_b, [122%N], 2%nat, Some 100);
      ORec (ex_b, [122%N], 2%nat, Some 100); ONotExist; OConflict; ORec (ex_a, [123%N], 3%nat, None);
-     ONotExist; OOk; ONotExist; OVer 4; OVer 5] /\
-  mono 0 ex_ops.
-Proof. vm_compute. repeat split; try reflexivity; try discriminate. Qed.
+     ONotExist; OOk; ONotExist; OVer 4; OVer 5; OOk;
+     ORecs [Some (ex_a, [3%N], 8%nat, None); Some (ex_c, [2%N], 7%nat, Some 120); Some (ex_a, [3%N], 8%nat, None); None;
+            Some (ex_b, [], 5%nat, None)];
+     ORecs [None; Some (ex_a, [3%N], 8%nat, None); None]; ORecs []] /\
+  mono 0 ex_ops /\ Forall (fun no => tied_op (snd no)) ex_ops.
+Proof.
+  split; [vm_compute; reflexivity|]. split; [vm_compute; reflexivity|]. split.
+  - vm_compute. repeat split; try reflexivity; try discriminate.
+  - repeat (apply Forall_cons; [vm_compute; try exact I; reflexivity|]). apply Forall_nil.
+Qed.
+
 
 Print Assumptions gen_inmem_refines_kv_lit.
 Print Assumptions gen_ex_inmem.
